@@ -139,3 +139,13 @@ check("C13",
       "point counts <= 5/9 per axis, dimension <= 3, <= 3 refinements. Outside: probability-step axes, promised tail probabilities. Known findings: "
       "uniform grid with a truncation closer than 2h; credit grid with threshold inside the first step / mirrored threshold beyond r.",
       TECH, "DESIGN.md section 3 C13")
+
+check("C19",
+      "Bounded model checking of the real credit grid, chain cell masses, CFLevyModel / CFLevyCopulaModel._theta, survival / par-spread / implied-spread "
+      "maps (brentq as a contract stub) and the CDS payoff on abstract measures and copula: sum of the cell masses of the states with a coordinate "
+      "below its threshold == closed-form theta (1-d, 2-d symmetric and asymmetric credit grids), theta == inclusion-exclusion of half-space masses "
+      "measured by the real rectangle-mass code (d = 2, 3), theta increasing in a threshold, survival = exp(-t theta), par spread = (1-R) theta, "
+      "implied spread inverts the present value, implied threshold reprices the spread, CDS value affine in the spread.",
+      "Trusted: z3; abstract measure/copula; for the chain comparison margins carry no mass outside the truncation; brentq contract; exp axioms. "
+      "Outside: 3-d chain sum, Brent's iterations, Monte-Carlo default times (C17 covers the default-time underlying).",
+      TECH, "DESIGN.md section 3 C19")
